@@ -5,7 +5,8 @@ Streams
          definition evaluated at Rat by the driver (mean, mean_squared, mae, mape — exactly; rmse^2 against
          mean_squared and msle against an mpmath reference to 1e-12) vs an independent Fraction formula (oracle).
   prop   the property itself per loss on the same data: 0 at the data, >= 0, 0 only at the data, not lowered by
-         scaling the prediction up — cosine_similarity and mean fail it (listed findings).
+         scaling the prediction up (cosine_similarity: -1 at the data, nothing below, scale invariant) — mean fails
+         it (listed finding).
   scale  `_Settings.loss` with/without standard scaling vs the generated `settingsLoss` (tolerance 1e-9: std/sqrt).
   resid  residual functions at the true parameters of identifiable linear models (steady state, time course,
          protocol; scaled/unscaled; every good loss) are ~0.
@@ -25,7 +26,7 @@ from vlib import driver
 PROPS = ["MxlVerif.Props.C20"]
 EXACT = ["mean", "mean_squared", "mae", "mean_absolute_percentage"]
 GOOD = ["mean_squared", "rmse", "mae", "mean_absolute_percentage", "mean_squared_logarithmic"]
-FINDING = {"cosine_similarity": "F-C20-1", "mean": "F-C20-2"}
+FINDING = {"mean": "F-C20-2"}
 ALL = ["cosine_similarity", "mae", "mean", "mean_absolute_percentage", "mean_squared", "mean_squared_logarithmic", "rmse"]
 
 
@@ -59,7 +60,7 @@ def reference_float(name, d, p):
     if name == "mean_squared_logarithmic":
         return float(sum((mpmath.log(a + 1) - mpmath.log(b + 1)) ** 2 for a, b in zip(D, P)) / n)
     if name == "cosine_similarity":
-        return float(-mpmath.sqrt(sum(a * a for a in D)) * mpmath.sqrt(sum(b * b for b in P)))
+        return float(-sum(a * b for a, b in zip(D, P)) / (mpmath.sqrt(sum(a * a for a in D)) * mpmath.sqrt(sum(b * b for b in P))))
     raise ValueError(name)
 
 
@@ -148,11 +149,27 @@ def judge_loss(ctx, c, r, m_all):
         M = None
         if name == "rmse" and m_val is not None:  # the driver's mean_squared is rmse^2
             M = {"value_close": abs(math.sqrt(float(F(m_val))) - ref) <= 1e-12 * max(1.0, abs(ref))}
+        if name == "cosine_similarity" and m_val is not None:  # the driver's (inner product, |d|^2, |p|^2)
+            M = {"value_close": abs(cos_from_parts(m_val) - ref) <= 1e-12 * max(1.0, abs(ref))}
         ctx.judge({"stream": "val", **c}, R, {"value_close": True}, M, what=f"losses.{name} vs 40-digit reference")
-    if "frame" in r and name != "cosine_similarity":  # norm(DataFrame, 2) is the spectral norm: not modelled
+    if "frame" in r:
         ctx.judge({"stream": "frame", **c}, {"same": abs(r["frame"] - r["dp"]) <= 1e-12 * max(1.0, abs(r["dp"]))},
                   {"same": True}, None, what=f"losses.{name} on a DataFrame = on its flattened values")
     # --- the property on this input
+    if name == "cosine_similarity":
+        # minus the cosine of the angle: -1 at the data, nothing below it, unchanged by scaling the prediction up
+        tol = 1e-12
+        R = {"at_data": abs(r["dd"] + 1.0) <= tol, "minimal_at_data": r["dp"] >= r["dd"] - tol,
+             "scale_invariant": abs(r["dlp"] - r["dp"]) <= tol, "scaling_up_not_rewarded": not (r["dlp"] < r["dd"] - tol)}
+        S = {"at_data": True, "minimal_at_data": True, "scale_invariant": True, "scaling_up_not_rewarded": True}
+        M = None
+        if m_val is not None:
+            vdp, vdd, vdlp = cos_from_parts(m_val), cos_from_parts(mdd), cos_from_parts(mdlp)
+            M = {"at_data": abs(vdd + 1.0) <= tol, "minimal_at_data": vdp >= vdd - tol,
+                 "scale_invariant": abs(vdlp - vdp) <= tol, "scaling_up_not_rewarded": not (vdlp < vdd - tol)}
+        ctx.judge({"stream": "prop", **c}, R, S, M,
+                  what="losses.cosine_similarity: -1 at the data, minimal there, invariant under scaling the prediction")
+        return
     tol = 0.0 if (sv is not None and exact_len) else 1e-12
     R = {"zero_at_data": abs(r["dd"]) <= tol, "nonneg": r["dp"] >= -tol,
          "zero_only_at_data": (abs(r["dp"]) <= tol) == (d == p),
@@ -167,6 +184,13 @@ def judge_loss(ctx, c, r, m_all):
             M = None  # float rounding of /n can turn an exact 0 into 1e-17; the model is compared on the exact stratum
     ctx.judge({"stream": "prop", **c}, R, S, M, finding=FINDING.get(name),
               what=f"losses.{name}: discrepancy-measure laws on this (data, prediction, factor)")
+
+
+def cos_from_parts(m):
+    """the driver returns the exact inner product and squared norms (the vocabulary the generated definition is built
+    from); the square roots are taken here"""
+    dot, a, b = (F(x) for x in m)
+    return -float(dot) / (math.sqrt(float(a)) * math.sqrt(float(b)))
 
 
 def model_losses(ctx, cases):
@@ -851,6 +875,8 @@ def run(ctx):
     loss_cases = [gen_loss_case(rng, name) for name in ALL for _ in range(ctx.n(60, 1500))]
     # the round-0 witnesses
     loss_cases += [{"loss": "cosine_similarity", "d": ["1", "2", "3"], "p": ["1", "2", "3"], "lam": "10", "frame": False},
+                   {"loss": "cosine_similarity", "d": ["1", "2", "3"], "p": ["3", "2", "1"], "lam": "10", "frame": False},
+                   {"loss": "cosine_similarity", "d": ["1", "2", "3", "4"], "p": ["-1", "-2", "-3", "-4"], "lam": "2", "frame": True},
                    {"loss": "mean", "d": ["1"], "p": ["101"], "lam": "2", "frame": False},
                    {"loss": "mean", "d": ["0", "2"], "p": ["1", "1"], "lam": "2", "frame": False}]
     set_cases = [{"loss": rng.choice(["mean_squared", "mae"]), "d": c["d"], "p": c["p"], "on": rng.random() < 0.6}
